@@ -284,7 +284,8 @@ reg('C01', 'model_checking',
     '3-D 3x3x3 k<=3; quick takes one residue class of the largest k) x '
     'smoothing-length patterns (h, 3h, h/2; thorough h/8 and 50h) x 4 '
     'array splits x affine images (far from the origin, negative, 2^-10, '
-    '2^10), all (dst,src) pairs, cache filled lazily and by '
+    '2^10; quick: every fourth configuration through one image, the four '
+    'taking turns), all (dst,src) pairs, cache filled lazily and by '
     'find_all_neighbors; all length-2 update histories (move / set h / '
     'append / remove, then update) on one long-lived object; cache filled '
     'with 2-16 threads. Oracle: NumPy brute force with a rounding band at '
@@ -292,9 +293,10 @@ reg('C01', 'model_checking',
     'native crashes are attributed, recorded as violations and skipped.',
     'Trusted: the brute-force oracle; documented protocol set_context() '
     'before queries. OpenMP interleavings are not enumerated (thread counts '
-    'are). 27 recorded findings (z-order family cross-array search and '
-    'empty-array crashes, octree recursion on coincident points, '
-    'ExtendedZOrder thread crashes) are listed in known_findings.json.',
+    'are). 15 recorded findings (ExtendedZOrder / StratifiedSFC cross-array '
+    'search, StratifiedSFC and octree crashes on empty arrays, octree '
+    'recursion on coincident points, ExtendedZOrder thread crashes) are '
+    'listed in known_findings.json.',
     'bounded-exhaustive small-scope enumeration of configurations and '
     'update histories on the real classes', 'E2-history-bfs')
 
